@@ -22,9 +22,12 @@ type T@ struct {
 	p *T@
 }
 
+var GI@ int
+
 func mk@() *T@ { return &T@{m: map[int]int{1: 1}, s: make([]int, 2, 8), b: make([]byte, 4)} }
 
 func poke@(o *T@) {
+	GI@ = 2 // GG
 	o.x = 2 // G2
 	o.m[1] = 2 // G2
 	o.s[0] = 2 // G2
@@ -142,6 +145,8 @@ ACCS = {
     "closureacc": ("", ["fa := func() {", "t.x = 4 // ACC", "}"], ["fa()"]),
     "deferacc": ("func dset@(o *T@) {\n\to.x = 5 // ACC\n}\nfunc dwrap@(o *T@) { defer dset@(o) }\n", [], ["dwrap@(t)"]),
     "loopacc": ("", [], ["for i := 0; i < 2; i++ {", "t.x = i // ACC", "}"]),
+    "globalstore": ("", [], ["GI@ = 7 // GACC"]),
+    "globalload": ("", [], ["r += GI@ // GACC"]),
 }
 
 TARGETS = ("self", "child", "latechild")
@@ -244,7 +249,7 @@ def program(scens, maker, extra_imports=()):
         if l.startswith("func main()"):
             cur = None
         if cur is not None:
-            mm = re.search(r"// (ACC|G2|SRC|SINK|TAINT)\b", l)
+            mm = re.search(r"// (ACC|G2|GG|GACC|SRC|SINK|TAINT)\b", l)
             info[cur]["lines"][ln] = mm.group(1) if mm else "-"
     return "\n".join(out) + "\n", info
 
@@ -367,6 +372,189 @@ def program_c13(scens):
         if l.startswith("func main()"):
             cur = None
         if cur is not None:
-            mm = re.search(r"// (ACC|G2|SRC|SINK|TAINT)\b", l)
+            mm = re.search(r"// (ACC|G2|GG|GACC|SRC|SINK|TAINT)\b", l)
             info[cur]["lines"][ln] = mm.group(1) if mm else "-"
     return src, info
+
+
+# ----------------------------------------------------------------------------------------------- calculus programs (tie)
+# Random programs of the calculus Lang/Conc.v, rendered both as model input (text for build/bin/c14model) and as Go source
+# (one instruction per line, every variable assigned once so that Go SSA registers = calculus registers, no phis).
+def _gen_body(rnd, st, depth, budget):
+    """st: dict(vars=list of visible regs, next=[counter], arities=list, nglob). Returns list of items."""
+    items = []
+    n = 2 + rnd(4)
+    for _ in range(n):
+        if budget[0] <= 0:
+            break
+        budget[0] -= 1
+        k = rnd(100)
+        vs = st["vars"]
+        if not vs or k < 18:
+            v = st["next"][0]
+            st["next"][0] += 1
+            items.append(("i", ("alloc", v)))
+            vs.append(v)
+        elif k < 26:
+            v = st["next"][0]
+            st["next"][0] += 1
+            items.append(("i", ("copy", v, vs[rnd(len(vs))])))
+            vs.append(v)
+        elif k < 44:
+            v = st["next"][0]
+            st["next"][0] += 1
+            items.append(("i", ("load", v, vs[rnd(len(vs))], rnd(2))))
+            vs.append(v)
+        elif k < 64:
+            items.append(("i", ("store", vs[rnd(len(vs))], rnd(2), vs[rnd(len(vs))])))
+        elif k < 71:
+            v = st["next"][0]
+            st["next"][0] += 1
+            items.append(("i", ("gload", v, rnd(st["nglob"]))))
+            vs.append(v)
+        elif k < 77:
+            items.append(("i", ("gstore", rnd(st["nglob"]), vs[rnd(len(vs))])))
+        elif k < 85 and len(st["arities"]) > 1:
+            fn = 1 + rnd(len(st["arities"]) - 1)
+            items.append(("i", ("go", fn, [vs[rnd(len(vs))] for _ in range(st["arities"][fn])])))
+        elif k < 93 and depth < 2:
+            saved = list(vs)
+            b1 = _gen_body(rnd, st, depth + 1, budget)
+            st["vars"] = list(saved)
+            b2 = _gen_body(rnd, st, depth + 1, budget)
+            st["vars"] = saved
+            vs = st["vars"]
+            items.append(("if", b1, b2))
+        elif depth < 2:
+            saved = list(vs)
+            b = _gen_body(rnd, st, depth + 1, budget)
+            st["vars"] = saved
+            vs = st["vars"]
+            items.append(("for", b))
+    return items
+
+
+def _size(body):
+    n = 0
+    for it in body:
+        if it[0] == "i":
+            n += 1
+        elif it[0] == "if":
+            n += 1 + _size(it[1]) + _size(it[2])
+        else:
+            n += 1 + _size(it[1])
+    return n
+
+
+def _layout(body, start, cont, code, golines, ind, names):
+    """appends (instr tuple, succs) to code (indexed by pc) and (pc or None, go text, indent) to golines"""
+    pc = start
+    for idx, it in enumerate(body):
+        rest = body[idx + 1:]
+        after = pc + (1 if it[0] == "i" else (1 + _size(it[1]) + _size(it[2]) if it[0] == "if" else 1 + _size(it[1])))
+        nxt = after if rest else cont
+        # where control goes after this item: the next item if any, else the continuation
+        if it[0] == "i":
+            code[pc] = (it[1], [] if nxt is None else [nxt])
+            golines.append((pc, _go_instr(it[1], names), ind))
+        elif it[0] == "if":
+            s1, s2 = _size(it[1]), _size(it[2])
+            t1 = pc + 1 if s1 else nxt
+            t2 = pc + 1 + s1 if s2 else nxt
+            code[pc] = (("nop",), [x for x in (t1, t2) if x is not None])
+            golines.append((pc, "if cond() {", ind))
+            _layout(it[1], pc + 1, nxt, code, golines, ind + 1, names)
+            golines.append((None, "} else {", ind))
+            _layout(it[2], pc + 1 + s1, nxt, code, golines, ind + 1, names)
+            golines.append((None, "}", ind))
+        else:
+            s1 = _size(it[1])
+            body_start = pc + 1 if s1 else pc
+            code[pc] = (("nop",), [x for x in (body_start, nxt) if x is not None])
+            golines.append((pc, "for cond() {", ind))
+            _layout(it[1], pc + 1, pc, code, golines, ind + 1, names)
+            golines.append((None, "}", ind))
+        pc = after
+
+
+def _go_instr(i, names):
+    v = lambda r: "v%d" % r
+    if i[0] == "alloc":
+        return "%s := &N{}; _ = %s" % (v(i[1]), v(i[1]))
+    if i[0] == "copy":
+        return "%s := %s; _ = %s" % (v(i[1]), v(i[2]), v(i[1]))
+    if i[0] == "load":
+        return "%s := %s.f%d; _ = %s" % (v(i[1]), v(i[2]), i[3], v(i[1]))
+    if i[0] == "store":
+        return "%s.f%d = %s" % (v(i[1]), i[2], v(i[3]))
+    if i[0] == "gload":
+        return "%s := %s; _ = %s" % (v(i[1]), names["glob"](i[2]), v(i[1]))
+    if i[0] == "gstore":
+        return "%s = %s" % (names["glob"](i[1]), v(i[2]))
+    if i[0] == "go":
+        return "go %s(%s)" % (names["func"](i[1]), ", ".join(v(a) for a in i[2]))
+    return "// nop"
+
+
+def _calc_text(i):
+    if i[0] == "go":
+        return "go %d %s" % (i[1], " ".join(str(a) for a in i[2]))
+    return " ".join(str(x) for x in i)
+
+
+def calc_program(rnd, k, nfun=3, nglob=2, size=14):
+    """one random calculus program number k -> (model text, go declarations text lines with (fn, pc) markers, kinds)"""
+    arities = [0] + [1 + rnd(2) for _ in range(nfun - 1)]
+    names = {"glob": lambda g: "G%d_%d" % (k, g), "func": lambda f: "p%d_f%d" % (k, f)}
+    model = ["PROG p%d" % k]
+    go = []          # (marker or None, text)
+    kinds = {}
+    for fn in range(nfun):
+        st = {"vars": list(range(arities[fn])), "next": [arities[fn]], "arities": arities, "nglob": nglob}
+        body = [("i", ("alloc", st["next"][0]))]
+        st["vars"].append(st["next"][0])
+        st["next"][0] += 1
+        body += _gen_body(rnd, st, 0, [size])
+        if fn == 0:
+            for callee in range(1, nfun):
+                vs = st["vars"]
+                body.append(("i", ("go", callee, [vs[rnd(len(vs))] for _ in range(arities[callee])])))
+        n = _size(body)
+        code = [None] * n
+        golines = []
+        _layout(body, 0, None, code, golines, 1, names)
+        model.append("FUNC %d" % arities[fn])
+        for pc, (ins, succs) in enumerate(code):
+            model.append("I %s | %s" % (_calc_text(ins), " ".join(str(s) for s in succs)))
+            kinds[(fn, pc)] = ins[0]
+        go.append((None, "func %s(%s) {" % (names["func"](fn), ", ".join("v%d *N" % i for i in range(arities[fn])))))
+        for pc, text, ind in golines:
+            go.append(((fn, pc) if pc is not None else None, "\t" * ind + text))
+        go.append((None, "}"))
+        go.append((None, ""))
+    model.append("END")
+    decl = ["var %s *N" % names["glob"](g) for g in range(nglob)]
+    return "\n".join(model) + "\n", decl, go, kinds
+
+
+def tie_program(seed, nprog):
+    """-> (go source, model input, line map {line: (prog, fn, pc, kind)})"""
+    import vlib
+    rnd = vlib.lcg(seed * 31337 + 5)
+    out = ["package main", "", "type N struct{ f0, f1 *N }", "", "var C int", "", "//go:noinline", "func cond() bool { C++; return C%3 == 0 }", ""]
+    model = []
+    linemap = {}
+    for k in range(nprog):
+        mtext, decl, go, kinds = calc_program(rnd, k)
+        model.append(mtext)
+        out += decl
+        out.append("")
+        for marker, text in go:
+            out.append(text)
+            if marker is not None:
+                linemap[len(out)] = (k, marker[0], marker[1], kinds[marker])
+    out.append("func main() {")
+    for k in range(nprog):
+        out.append("\tgo p%d_f0()" % k)
+    out.append("}")
+    return "\n".join(out) + "\n", "".join(model), linemap
